@@ -17,12 +17,12 @@ import (
 )
 
 const (
-	c20KWalk    = 8
-	c20RegWalk  = -5
-	c20KMark    = 7
-	c20RegMark  = -4
-	c20MarkData = 1
-	c20MarkClose = 2
+	c20KWalk       = 8
+	c20RegWalk     = -5
+	c20KMark       = 7
+	c20RegMark     = -4
+	c20MarkData    = 1
+	c20MarkClose   = 2
 	c20MarkCbBegin = 10
 	c20MarkCbEnd   = 11
 	c20MarkCbMid   = 12 // only in the recycle-under-OnData scenario: a pause between Peek and ReadBytes
@@ -43,13 +43,13 @@ type c20Case struct {
 	NCl      int         `json:"ncl"`
 	Setter   bool        `json:"setter"`
 	MidYield bool        `json:"mid_yield"` // OnData pauses between Peek and ReadBytes and then checks that its view is still owned
-	Script   [][2]int    `json:"script"` // per OnData invocation: bytes to consume, number of Close() calls inside it
-	Sync     []int       `json:"sync"`   // synchronous reads by the user BEFORE SetCallbacks: ReadBytes(k), k = 0: Peek
-	Deadlock bool        `json:"deadlock"` // every remaining thread spins in a cooperative wg.Wait
-	Ups      [][]int     `json:"ups"`      // user threads: each flushes these one-byte messages, one Flush per byte
-	InFl     []int       `json:"infl"`     // per OnData invocation: Flush calls made inside it after its Close() calls
-	Ures     [][]bool    `json:"ures"`     // per user thread (the Flushes made inside OnData last): did Flush return nil
-	NData    int64       `json:"ndata"`    // data elements put on the send queue
+	Script   [][2]int    `json:"script"`    // per OnData invocation: bytes to consume, number of Close() calls inside it
+	Sync     []int       `json:"sync"`      // synchronous reads by the user BEFORE SetCallbacks: ReadBytes(k), k = 0: Peek
+	Deadlock bool        `json:"deadlock"`  // every remaining thread spins in a cooperative wg.Wait
+	Ups      [][]int     `json:"ups"`       // user threads: each flushes these one-byte messages, one Flush per byte
+	InFl     []int       `json:"infl"`      // per OnData invocation: Flush calls made inside it after its Close() calls
+	Ures     [][]bool    `json:"ures"`      // per user thread (the Flushes made inside OnData last): did Flush return nil
+	NData    int64       `json:"ndata"`     // data elements put on the send queue
 	Steps    []vsStepRec `json:"steps"`
 	Offers   [][]int     `json:"offers"`
 	Consumed []int       `json:"consumed"`
@@ -296,55 +296,51 @@ func c20Run(env *c20Env, c c20Case, mk func() vsChooser, maxSteps int) c20Case {
 			cb.closeRet()
 		})
 	}
-	syncTid := -1
-	if len(c.Sync) > 0 {
-		syncTid = len(vs.threads)
-		if c.Setter {
-			syncTid++
+	// the user: synchronous reads (before the callbacks are installed), then SetCallbacks — ONE goroutine, as in
+	// "accept the stream, look at the head of the message, then switch to callbacks"
+	syncReads := func() {
+		for _, k := range c.Sync {
+			if s.getCallbacks() != nil {
+				return // callbacks installed: the user no longer reads synchronously
+			}
+			// (no lock here: the pendingData mutex is cooperative under the scheduler, and exactly one controlled
+			// thread runs at a time)
+			avail := s.recvBuf.Len()
+			for _, w := range s.pendingData.unread {
+				if sl, err := env.client.bufferManager.readBufferSlice(w.offset); err == nil {
+					avail += sl.size()
+				}
+			}
+			if avail == 0 {
+				// a real read would block: do only what readMore does first (the model moves and consumes nothing)
+				s.pendingData.moveTo(s.recvBuf)
+				continue
+			}
+			if k == 0 {
+				_, _ = s.BufferReader().Peek(1)
+				continue
+			}
+			if k > avail {
+				k = avail
+			}
+			b, _ := s.BufferReader().ReadBytes(k)
+			for _, x := range b {
+				cb.consumed = append(cb.consumed, int(x))
+			}
+			cb.syncN += len(b)
+			s.BufferReader().ReleasePreviousRead()
 		}
 	}
 	if c.Setter {
-		// the explicit scheduling point separates installing the callbacks from the store of callbackInProcess
-		vsSpawn(func() { vsPre(); _ = s.SetCallbacks(cb) })
-	}
-	if len(c.Sync) > 0 {
-		// the user reads synchronously before it installs the callbacks: readMore moves everything pending into
-		// recvBuf, then Peek / ReadBytes.  (No instrumented access: the whole read is one scheduler step.)
 		vsSpawn(func() {
-			for _, k := range c.Sync {
-				if s.getCallbacks() != nil {
-					return // callbacks installed: the user no longer reads synchronously
-				}
-				// (no lock here: the pendingData mutex is cooperative under the scheduler, and exactly one controlled
-				// thread runs at a time)
-				avail := s.recvBuf.Len()
-				for _, w := range s.pendingData.unread {
-					if sl, err := env.client.bufferManager.readBufferSlice(w.offset); err == nil {
-						avail += sl.size()
-					}
-				}
-				if avail == 0 {
-					// a real read would block: do only what readMore does first (the model moves and consumes nothing)
-					s.pendingData.moveTo(s.recvBuf)
-					continue
-				}
-				if k == 0 {
-					_, _ = s.BufferReader().Peek(1)
-					continue
-				}
-				if k > avail {
-					k = avail
-				}
-				b, _ := s.BufferReader().ReadBytes(k)
-				for _, x := range b {
-					cb.consumed = append(cb.consumed, int(x))
-				}
-				cb.syncN += len(b)
-				s.BufferReader().ReleasePreviousRead()
-			}
+			syncReads()
+			// the explicit scheduling point separates installing the callbacks from the CAS on callbackInProcess
+			vsPre()
+			_ = s.SetCallbacks(cb)
 		})
+	} else if len(c.Sync) > 0 {
+		vsSpawn(syncReads)
 	}
-	_ = syncTid
 	ures := make([][]bool, len(c.Ups))
 	for u := range c.Ups {
 		u := u
@@ -956,12 +952,12 @@ func TestVerif_C20(t *testing.T) {
 			c.Sync = append(c.Sync, 1)
 		}
 		c.Script = c20GenScript(r, 0)
-		// tids: 0 event loop, 1 SetCallbacks, 2 synchronous reader
+		// tids: 0 event loop, 1 the user (synchronous reads, then SetCallbacks)
 		if k%3 != 2 {
 			c.Strat = "arrivals;sync-read;then-random"
-			o.emit(c20Run(env, c, func() vsChooser { return c20PhaseChooser([]int{0, 2}, vsRandomChooser(r, 50, 0)) }, 3000))
+			o.emit(c20Run(env, c, func() vsChooser { return c20PhaseChooser([]int{0}, vsRandomChooser(r, 50, 0)) }, 3000))
 		} else {
-			strat, mk := c20Strategy(r, id, 3)
+			strat, mk := c20Strategy(r, id, 2)
 			c.Strat = strat
 			o.emit(c20Run(env, c, mk, 3000))
 		}
